@@ -7,6 +7,7 @@ from lib import portcase as pc
 from lib.fastsim import HarnessError
 
 ID = "C08"
+REQUIRED_CLASSES = ['coprime_periods', 'backpressure', 'core:cdc']      # classes that must occur in every run (else harness error: vacuous generator)
 LEVEL = "exploration"
 RULE = ("case = (LiteDRAMNativePortCDC with user/sys clock periods from 4..40 time units incl. co-prime 'drifting' pairs and any phase, FIFO depths 4-32, mode read/write/both) x "
         "(conforming user-domain master: op list with gaps and data lead) x (sys-domain realistic slave: stall schedule, strobe latencies, outstanding limit); "
